@@ -48,6 +48,18 @@ CLAIMED = {
     note=("Trusted: lianvc + encoding, z3. Assumed (hereditary, unchecked): frontend output shape (non-empty statement dicts, first key = operation, payload keys not "
           "reserved). LangAnalysis.run is not under contract."),
     design='§4 C03'),
+ 'C13': dict(
+    text=("Proof (partial: the bounding invariants only; termination and running time are NOT decided): on the real source, for all frames, worklists and counter "
+          "tables: P2PrelimSemanticAnalysis.analyze_stmts lets a statement reach compute_stmt_states only while its round counter is below its bound "
+          "(max_analysis_round, or loop_total_rounds), every completed visit adds exactly one to that counter, counters never decrease, the tables stay in place; "
+          "complete_in_states_and_check_continue_flag (prefix) answers False at the bound; GlobalStmtStates.compute_target_method_states (prefix: the callee loop) "
+          "selects a callee only while its call-site counter <= MAX_ANALYSIS_ROUND_FOR_CALL_SITE, the path is not stored and closes at most one cycle, and selecting "
+          "adds exactly one to the shared table; SimpleWorkList.{add,_add_with_priority,pop,peek,__len__} never queue an item twice; CallPath.count_cycles bounds. "
+          "Static obligations pin every writer of the counter tables in src/lian and that all frames of an entry point share one call-site table. "
+          "That these bounds imply termination in polynomial time (liveness/complexity), the taint worklist and the unused size caps are outside."),
+    note=("Trusted: lianvc + encoding, z3; heapq.heappush as a permutation; the four analysis steps / prepare_parameters / map_arguments opaque with an assumed frame "
+          "(do not write the counter tables; backed only by the syntactic writer inventory)."),
+    design='§4 C13'),
  'C15': dict(
     text=("Proof (partial): for every history of save/get/export on a GeneralLoader, get_raw_item_by_id/get_item_by_id return the content most recently "
           "saved for the id: the representation invariant (index, active bundle, bundle files, bundle cache, item cache all describe the latest content per "
